@@ -178,6 +178,16 @@ CLAIMED["C14"] = (
     "Model-generated systematic input space (all pairs of fields x all pairs of character classes) with the identity oracle, every "
     "case executed through the real encoder and decoder. The encoding itself is not modelled (encode/decode fidelity is at the edge "
     "of what a TLA+ model decides; said so in DESIGN.md).", "3 C14", "")
+CLAIMED["C21"] = (
+    "TLA+ spec specs/memo/TxPressure.tla (.txgs queue, gram in flight .txbs, bytes accepted per destination, dropped grams; one "
+    "action per serviceTxGramsOnce() with the transport's answer: accept k of the offered bytes, 0 = would block, or unreachable): "
+    "TLC exhaustive MC of WireExact/NoLoss/OneInFlight; histories (all short + tlc -simulate) executed on a real Memoer with "
+    "scripted send() and on real UDP and UXD PeerMemoers over a scripted datagram socket, bytes accepted per destination compared "
+    "after each call and a final drain with an all-accepting transport (spec->code)",
+    "Exhaustive model checking of the transmit discipline for all acceptance patterns within the bounds plus conformance of the "
+    "three real classes on every enumerated and on thousands of simulated histories.", "3 C21",
+    "Queue length and remainder in flight are compared with the model too, but a difference there alone is a recorded divergence; "
+    "lost, duplicated or reordered bytes decide.")
 NA = {
  "C28": "pure value-fidelity of json/cbor2/msgpack + dataclass reflection: no state/transition structure for a TLA+ model to decide (DESIGN.md section 4)",
 }
